@@ -213,7 +213,9 @@ pub fn field<T: FromSx>(l: &[Sx], name: &str) -> Result<T, String> {
             }
         }
     }
-    Err(format!("missing field {}", name))
+    // a field that is absent reads as "-" (None) when its type allows it: lets older replay files
+    // stay valid after an optional field was added to an operation
+    T::from_sx(&Sx::Atom("-".to_string())).map_err(|_| format!("missing field {}", name))
 }
 
 /// Declares an enum (unit and struct-like variants) together with its s-expression codec.
